@@ -144,6 +144,14 @@ func main() {
 			exit(minimizeHistory(*minimize, emit))
 		}
 		historyBatch(*prop, *base, *from, *to, *tier, *logHashes, *budget, start, emit)
+	case "alloc":
+		if *replay != "" {
+			exit(replayAlloc(*replay, emit))
+		}
+		if *minimize != "" {
+			exit(replayAlloc(*minimize, emit))
+		}
+		allocBatch(*base, *from, *to, *tier, *budget, start, emit)
 	case "stream":
 		if *replay != "" {
 			exit(replayStream(*replay, emit))
